@@ -3,7 +3,7 @@ SPEC = dict(
     title="No request can change rqlite-critical SQLite settings",
     pkg="./store", files=["store/c15_verif_test.go"],
     rule="texts from a grammar of PRAGMA statements (EXPLAIN prefix, case, separators incl. comments/BOM, schema prefix, four quoting styles, "
-         "'=' '==' '(..)' bare and broken forms, values) embedded at a random position among harmless statements with prefixes, Unicode white space "
+         "'=' '==' '(..)' bare and broken forms, values) embedded at a random position among harmless statements (one text in 12 starts with an EXPLAIN statement) with prefixes, Unicode white space "
          "after ';' and trailers, one quarter byte-mutated; a text is non-trivial when it sets a critical PRAGMA (or runs a checkpoint) and that "
          "PRAGMA is not the first token of the text (comment/BOM/empty statement before it, EXPLAIN prefix, or a later statement); distinct by text",
     exhaustive=False,
@@ -12,7 +12,7 @@ SPEC = dict(
     assumptions=["the settings can only be changed through the PRAGMA statement (pragma_* table-valued functions of these PRAGMAs take no argument; probed in the corpus)"],
     level_text="C15_guard_complete holds for every byte string: whenever the SQLite reading model yields an effect, the guard model returns true; "
                "C15_applied_everywhere lifts it to every request through Execute/Query/Request. Guard model vs real IsBreakingPragma and effects model vs real SQLite "
-               "(three db.DB entry points, both pools) are compared on every generated text; a live Store is exercised on a sample.",
+               "(three db.DB entry points, both pools) are compared on every generated text; a live Store is exercised on a sample with requests built by the real command/sql.Process (SqlExplain/ForceQuery flags as in production).",
     level_note="Model = new token-based guard transcribed from Go + independent model of SQLite's reading; tie = differential + real-SQLite oracle.",
     technique="Coq simulation proof (guard state machine vs SQLite tokenizer/grammar model) + differential run + real-SQLite oracle",
     design_ref="6/C15",
